@@ -61,7 +61,9 @@ def run(ctx):
             for x in (a[2], a[4]):
                 ii = [n for n in hir.walk(x) if n.get("k") == "Index"]
                 idx.append(strip(ii[0]["idx"])["lit"]["v"] if ii and strip(ii[0]["idx"])["k"] == "Lit" else None)
-            ok = idx == [0, 1] and field_path(a[3]) == ("feature_str",)
+            # the copula text is the value of _feature_string(term) (directly or through a named temporary)
+            fl_ = hir.through_lets(a[3], hir.let_env(ft["body"]))
+            ok = idx == [0, 1] and strip(fl_)["k"] == "MethodCall" and strip(fl_)["method"] == "_feature_string"
         ctx.ob("M-TYPST", "statement = subject(component 0), copula, predicate(component 1)", ok, "")
     # constant maps
     fs = f.hir_fn("_feature_string", module="typst_formatter::formatter_enum")
@@ -113,6 +115,13 @@ def run(ctx):
     # layout
     tc = f.hir_fn("template_compound", module="typst_formatter::formatter_enum")
     ctx.fn(tc)
+    tcp = [q.get("name") for q in tc["params"]]
+    if len(tcp) != 5:
+        raise AnchorMissing("template_compound(out, brackets, connecter, components, separator)")
+    P_BR, P_CON, P_COMP, P_SEP = tcp[1], tcp[2], tcp[3], tcp[4]           # by position, not by name
+    collected = [st_["pat"]["name"] for st_ in strip(tc["body"])["stmts"] if st_["k"] == "Let" and st_["pat"]["k"] == "Binding" and st_.get("init")
+                 and strip(st_["init"])["k"] == "MethodCall" and strip(st_["init"])["method"] == "collect"]
+    V_STR = collected[0] if len(collected) == 1 else "strings"
     lm = [n for n in hir.walk(tc["body"]) if n.get("k") == "Match"]
     ok = len(lm) == 1
     if ok:
@@ -125,11 +134,11 @@ def run(ctx):
             c0 = hir.find_calls(arms_[0]["body"], "template_components")[0]
             c1 = hir.find_calls(arms_[1]["body"], "template_components")[0]
             c2 = hir.find_calls(arms_[2]["body"], "template_components")[0]
-            ok = ok and field_path(c0["args"][2]) == ("separator",) and field_path(c1["args"][2]) == ("connecter",) and field_path(c2["args"][2]) == ("separator",)
+            ok = ok and field_path(c0["args"][2]) == (P_SEP,) and field_path(c1["args"][2]) == (P_CON,) and field_path(c2["args"][2]) == (P_SEP,)
             pushes = [field_path(c["args"][0]) for c in hir.find_calls(arms_[2]["body"], "push_str")]
-            ok = ok and pushes[:1] == [("connecter",)]
+            ok = ok and pushes[:1] == [(P_CON,)]
     pushes = [field_path(c["args"][0]) for c in hir.find_calls(tc["body"], "push_str")]
-    ok = ok and pushes[0] == ("brackets", "0") and pushes[-1] == ("brackets", "1")
+    ok = ok and pushes[0] == (P_BR, "0") and pushes[-1] == (P_BR, "1")
     ctx.ob("M-TYPST", "template_compound: three arity layouts, each emitting the connecter (unless set) and all components between the brackets", bool(ok), "")
     # order: the rendered components reach the join in the order the accessor yields them (images: with the placeholder at its index).
     # Nothing may reorder / drop them on the way: the collected vector is immutable and only asked for its length before it is consumed,
@@ -138,13 +147,13 @@ def run(ctx):
     used = []
     mut_bind = False
     for n in hir.walk(tc["body"]):
-        if n.get("k") == "MethodCall" and field_path(n["recv"]) == ("strings",):
+        if n.get("k") == "MethodCall" and field_path(n["recv"]) == (V_STR,):
             used.append(n["method"])
     for st_ in strip(tc["body"])["stmts"]:
-        if st_["k"] == "Let" and st_["pat"]["k"] == "Binding" and st_["pat"]["name"] == "strings":
+        if st_["k"] == "Let" and st_["pat"]["k"] == "Binding" and st_["pat"]["name"] == V_STR:
             mut_bind = "Mut" in (st_["pat"].get("mode") or "").split(",")[-1]
             init = strip(st_["init"])
-            ok_init = init["k"] == "MethodCall" and init["method"] == "collect" and field_path(init["recv"]) == ("components",)
+            ok_init = init["k"] == "MethodCall" and init["method"] == "collect" and field_path(init["recv"]) == (P_COMP,)
             ctx.ob("M-TYPST", "template_compound: strings = components.collect() (nothing in between)", ok_init, "")
     ctx.ob("M-TYPST", "template_compound: the collected component strings are neither reordered nor mutated", set(used) <= ORDER_NEUTRAL and not mut_bind and "into_iter" in used,
            "methods called on the collected vector: %s%s" % (sorted(set(used)), "; the binding is mutable" if mut_bind else ""))
@@ -157,7 +166,8 @@ def run(ctx):
         while e["k"] == "MethodCall":
             chain.append(e["method"])
             e = strip(e["recv"])
-        ok_chain = chain[:-1] == ["map", "into_iter"] and chain[-1:] == ["get_components_including_placeholder"] and field_path(e) == ("term",)
+        ft_p = [q["name"] for q in ft_["params"] if q.get("k") == "Binding" and q["name"] != "self"]      # format_term(&self, out, term)
+        ok_chain = chain[:-1] == ["map", "into_iter"] and chain[-1:] == ["get_components_including_placeholder"] and len(ft_p) == 2 and field_path(e) == (ft_p[1],)
     ctx.ob("M-TYPST", "format_term: components = term.get_components_including_placeholder().into_iter().map(render)", ok_chain, "adapter chain %s" % chain[::-1])
     # per-role distinctness of the constants
     ctx.rule("T-DISTINCT", "Typst constants of one role are pairwise distinct (prefixes, connecters, copulas, punctuations, non-eternal stamps, term bracket pairs)")
